@@ -249,7 +249,7 @@ def build_robust(mods, jobs=None):
             break
         bs = core.build_many([core.BuildSpec(mods[i]["name"], module_source(mods[i], mods[i]["dropped"]), kind="py",
                                              options={"language_level": 3}) for i in pending],
-                             workdir=core.subdir("build%d" % rnd), jobs=jobs)
+                             workdir=core.subdir("build%d" % rnd), jobs=jobs, timeout=3600)   # 220 functions per module: > 900 s at machine load 300
         nxt = []
         for i, b in zip(pending, bs):
             builds[i] = b
